@@ -72,6 +72,8 @@ SPLITTERS = {
     "core::slice::<impl [T]>::last_chunk": ("last1", "opt"),
     "core::slice::<impl [T]>::split_at": ("at", "plain"),
     "core::slice::<impl [T]>::split_at_mut": ("at", "plain"),
+    "core::slice::<impl [T]>::split_at_checked": ("at", "opt"),
+    "core::slice::<impl [T]>::split_at_mut_checked": ("at", "opt"),
     "zerocopy::FromBytes::mut_from_prefix": ("zfirst", "res"),
     "zerocopy::FromBytes::ref_from_prefix": ("zfirst", "res"),
     "zerocopy::FromBytes::mut_from_suffix": ("zlast", "res"),
@@ -1079,6 +1081,26 @@ class Interp:
                         self.write(r_.path, dest, r_.ret)
                         self._walk(ctx, t["t"], r_.path, visited, out)
                 return None
+        if p == "core::iter::traits::iterator::Iterator::try_for_each" and t["t"] is not None and len(args) == 2 \
+                and self.inline and ctx["depth"] < MAX_DEPTH and is_ptr(args[0]):
+            # [a, b, c].into_iter().try_for_each(|x| ..) over a literal array with a workspace closure: the calls it stands for,
+            # in order, stopping at the first failure
+            cur = self.content(path, args[0][1])
+            clo = args[1]
+            cf = None
+            if isinstance(clo, tuple) and clo and clo[0] == "agg" and clo[1].startswith("closure:"):
+                cf = self.w.find_fn(ctx["fn"]["crate"], clo[1][len("closure:"):])
+            if isinstance(cur, tuple) and cur and cur[0] == "citer" and cf is not None and "Result<" in ce.get("full", ""):
+                _, elems, i0 = cur
+                self.write(path, args[0][1], ("citer", elems, len(elems) + 1))
+                env = clo
+                try:
+                    if ctx["cr"].ty(cf["body"]["locals"][1]["ty"]).get("k") in ("ref", "ptr"):
+                        env = ("ptr", ("T", clo))
+                except Exception:
+                    pass
+                self._try_for_each(ctx, path, list(elems[i0:]), env, cf, dest, t, visited, out, site, blk, name)
+                return None
         if p in RESULT_DEFAULTING and t["t"] is not None and args:
             # a Result whose error is swallowed and replaced by a default: two continuations. On the error branch the value
             # no longer depends on what was being computed — rules see it through the terms (e.g. a MAC key made of a constant)
@@ -1170,6 +1192,32 @@ class Interp:
             out.append(Result_("diverge", None, path, site))
             return None
         return t["t"]
+
+    def _try_for_each(self, ctx, path, elems, env, cf, dest, t, visited, out, site, blk, name):
+        if not elems:
+            self.write(path, dest, ("agg", "adt:Result::Ok", (("agg", "tuple", ()),)))
+            self._walk(ctx, t["t"], path, visited, out)
+            return
+        results = self.run(cf, args=[env, elems[0]], path=path, depth=ctx["depth"] + 1, subst=dict(ctx["subst"]))
+        for r_ in results:
+            if r_.kind != "return":
+                out.append(r_)
+                continue
+            ret, p2 = r_.ret, r_.path
+            ok = okness(ret, p2)
+            if ok is True:
+                self._try_for_each(ctx, p2, elems[1:], env, cf, dest, t, visited, out, site, blk, name)
+            elif ok is False:
+                self.write(p2, dest, ret)
+                self._walk(ctx, t["t"], p2, visited, out)
+            else:
+                self.discr_kind.setdefault(ret, "result")
+                p_ok = p2.fork()
+                self.assume_switch(p_ok, ("discr", ret), 0, [0, 1], site, blk["sp"])
+                self._try_for_each(ctx, p_ok, elems[1:], env, cf, dest, t, visited, out, site, blk, name)
+                self.assume_switch(p2, ("discr", ret), 1, [0, 1], site, blk["sp"])
+                self.write(p2, dest, ("agg", "adt:Result::Err", (self.errv(p2, ret),)))
+                self._walk(ctx, t["t"], p2, visited, out)
 
     def argval(self, path, a, depth=0):
         """Location-independent value of an argument: pointers become the content they point to."""
@@ -1723,7 +1771,8 @@ class Interp:
                         m = mb - loc[2][0]
                 if m is None:
                     self.event(path, "split", name, ce, args, site, blk, dest_ty, ctx, {"how": kind, "n": n, "target": loc, "unknown_mid": True})
-                    return ("agg", "tuple", (("ptr", ("R?", loc, "lo", n)), ("ptr", ("R?", loc, "hi", n))))
+                    # same shape as an index range with a symbolic bound: [0, n) and [n, end)
+                    return ("agg", "tuple", (("ptr", ("R?", loc, (0, 0), ("sym", n))), ("ptr", ("R?", loc, ("sym", n), (0, 1)))))
                 res = ("agg", "tuple", (reg((0, 0), (-m, 1)), reg((-m, 1), (0, 1))))
                 need = m
         self.event(path, "split", name, ce, args, site, blk, dest_ty, ctx,
